@@ -82,6 +82,7 @@ type pstate struct {
 	curBlk int
 	stack  []frame     // inlined calls in progress (innermost last)
 	unroll map[int]int // loop header -> iterations unrolled so far on this path (headers in concrete mode)
+	strEq  map[string]string // term key -> the string literal it is known to equal on this path
 }
 
 // closureVal: a function literal created during the exploration, with the
@@ -149,6 +150,12 @@ func (s *pstate) clone() *pstate {
 	n.conds = append([]Cond(nil), s.conds...)
 	n.blocks = append([]int(nil), s.blocks...)
 	n.stack = append([]frame(nil), s.stack...)
+	if len(s.strEq) > 0 {
+		n.strEq = make(map[string]string, len(s.strEq))
+		for k, v := range s.strEq {
+			n.strEq[k] = v
+		}
+	}
 	if len(s.unroll) > 0 {
 		n.unroll = make(map[int]int, len(s.unroll))
 		for k, v := range s.unroll {
@@ -170,6 +177,7 @@ type Explorer struct {
 	NoInline bool
 	steps    int
 	closures map[int64]closureVal // closures created on the way, by the id in their term
+	arrays   map[int64][]arrEntry // element facts of arrays copied as whole values
 	resolved *ssa.Function        // callee of the dynamic call being recorded, when its function value is known
 	invPhi   map[*ssa.Phi]*T // loop-invariant header phis of the loop being entered
 	probing  bool // evaluating a loop header to see whether its test is decided
@@ -327,7 +335,7 @@ func (e *Explorer) lvalue(s *pstate, addr ssa.Value) *T {
 		if fb, ok := freshBase(base); ok {
 			base = fb
 		}
-		return &T{Op: "elem", A: []*T{base, e.val(s, a.Index)}, Ty: elemType(a.X.Type())}
+		return &T{Op: "elem", A: []*T{base, e.concrete(s, e.val(s, a.Index))}, Ty: elemType(a.X.Type())}
 	case *ssa.Global:
 		return &T{Op: "global", S: a.Name(), Ty: a.Type().(*types.Pointer).Elem()}
 	}
@@ -335,6 +343,9 @@ func (e *Explorer) lvalue(s *pstate, addr ssa.Value) *T {
 	p := e.val(s, addr)
 	if p.Op == "addr" {
 		return p.A[0] // a pointer to named storage (passed to an expanded helper): the storage itself
+	}
+	if p.Op == "new" || p.Op == "alloc" {
+		return p // the pointer an allocation yields names that allocation
 	}
 	var ty types.Type
 	if pt, ok := addr.Type().Underlying().(*types.Pointer); ok {
@@ -407,7 +418,33 @@ func untracked(lv *T) bool {
 }
 
 // load reads the storage named by addr.
+// arrEntry: one tracked element (or element field) of an array copied as a whole.
+type arrEntry struct {
+	lv, val *T
+}
+
 func (e *Explorer) load(s *pstate, addr ssa.Value, ty types.Type) *T {
+	// an array read as a whole value (a composite literal being assigned): remember what is
+	// known about its elements so that the copy carries it along
+	if ty != nil {
+		if _, isArr := ty.Underlying().(*types.Array); isArr {
+			lv := e.lvalue(s, addr)
+			var snap []arrEntry
+			for hk, hl := range s.heapLV {
+				if hk != lv.Key() && lvInside(hl, lv) {
+					snap = append(snap, arrEntry{hl, s.heap[hk]})
+				}
+			}
+			if len(snap) > 0 {
+				e.unkID++
+				if e.arrays == nil {
+					e.arrays = map[int64][]arrEntry{}
+				}
+				e.arrays[e.unkID] = snap
+				return &T{Op: "arrayval", C: e.unkID, A: []*T{lv}, Ty: ty}
+			}
+		}
+	}
 	if a, fields := e.allocOf(s, addr); a != nil && !a.Heap {
 		return e.loadAlloc(s, a, fields, ty)
 	}
@@ -451,6 +488,24 @@ func (e *Explorer) loadLV(s *pstate, lv *T, ty types.Type) *T {
 	if e.Fn.Synthetic == "" {
 		if v, ok := e.W.initialValue(lv); ok {
 			return v
+		}
+		if e.W.initialised(lv) {
+			// part of a literal the initialiser built: a struct is the struct of its fields, and
+			// whatever the initialiser did not store is the zero value
+			if ty != nil {
+				if stt, ok := ty.Underlying().(*types.Struct); ok {
+					r := &T{Op: "struct", S: types.TypeString(ty, func(*types.Package) string { return "" }), Ty: ty}
+					for i := 0; i < stt.NumFields(); i++ {
+						f := stt.Field(i)
+						r.N = append(r.N, f.Name())
+						r.A = append(r.A, e.loadLV(s, &T{Op: "sel", S: f.Name(), A: []*T{lv}, Ty: f.Type()}, f.Type()))
+					}
+					return r
+				}
+				if constPath(lv) {
+					return zeroOf(ty)
+				}
+			}
 		}
 	}
 	// fresh heap read: tag with the epoch unless the field is stable
@@ -564,7 +619,32 @@ func (e *Explorer) store(s *pstate, in *ssa.Store, blk int) {
 		}
 		s.heap[k] = v
 		s.heapLV[k] = lv
+		if v.Op == "arrayval" {
+			// the copy has the elements of the original
+			src := v.A[0].Key()
+			for _, en := range e.arrays[v.C] {
+				nl := rewrite(en.lv, func(x *T) *T {
+					if x.Key() == src {
+						return lv
+					}
+					return nil
+				})
+				s.heap[nl.Key()], s.heapLV[nl.Key()] = en.val, nl
+			}
+		}
 	}
+}
+
+// lvInside: a is an element / field (at any depth) of b.
+func lvInside(a, b *T) bool {
+	bk := b.Key()
+	for a.Op == "sel" || a.Op == "elem" {
+		a = a.A[0]
+		if a.Key() == bk {
+			return true
+		}
+	}
+	return false
 }
 
 // lvEpoch: version of the storage named by lv on this path.
@@ -628,8 +708,20 @@ func (e *Explorer) havoc(s *pstate, callee *ssa.Function) {
 			s.ver[f]++
 		}
 	}
+	// code outside the analysed packages cannot name their package-level variables (nor the
+	// literals the package initialiser hangs on them): those facts survive such a call
+	external := callee != nil && !e.W.inPkgs(callee)
 	for k, lv := range s.heapLV {
 		if unknown || lvTouches(lv, mods) {
+			if external {
+				root := lv
+				for root.Op == "sel" || root.Op == "elem" {
+					root = root.A[0]
+				}
+				if root.Op == "global" || (root.Op == "new" && strings.HasPrefix(root.S, "init.")) {
+					continue
+				}
+			}
 			delete(s.heap, k)
 			delete(s.heapLV, k)
 		}
@@ -779,6 +871,10 @@ func (e *Explorer) runFrom(b *ssa.BasicBlock, pred int, from int, s *pstate, sta
 				base = e.lvalue(s, in.X)
 			} else {
 				base = e.val(s, in.X)
+			}
+			// a read-only table indexed by a value of an enumerated type: one path per value
+			if e.forkOnTableIndex(b, pred, ii, s, start, base, in.Index) {
+				return
 			}
 			s.events = append(s.events, Event{Kind: "index", Instr: in, Pos: in.Pos(), Args: []*T{base, e.val(s, in.Index)}, Block: rb})
 		case *ssa.FieldAddr:
@@ -1186,6 +1282,52 @@ func (e *Explorer) assume(s *pstate, c *T, pol bool, pos token.Pos) bool {
 			return true
 		}
 	}
+	// an ordering test between a value of an enumerated type and a constant narrows its set
+	if c.Op == "lt" && len(c.A) == 2 {
+		x, k, xLeft := stripConv(c.A[0]), c.A[1], true
+		if c.A[0].IsConst() {
+			x, k, xLeft = stripConv(c.A[1]), c.A[0], false
+		}
+		if dom, ok := e.W.enumDomain(x.Ty); ok && k.IsConst() && !x.IsConst() {
+			key := x.Key()
+			cur, have := s.sets[key]
+			if !have {
+				cur = dom
+			}
+			var mask uint64
+			for v := int64(0); v < 64; v++ {
+				holds := v < k.C // x < k
+				if !xLeft {
+					holds = k.C < v // k < x
+				}
+				if holds == pol {
+					mask |= 1 << uint(v)
+				}
+			}
+			if cur&mask == 0 {
+				return false
+			}
+			s.sets[key], s.setT[key] = cur&mask, x
+			s.conds = append(s.conds, Cond{Atom: c, Val: pol, Pos: pos, Block: s.curBlk})
+			return true
+		}
+	}
+	// a value equal to one string literal differs from every other literal
+	if c.Op == "eq" && c.A[1].Op == "str" && c.A[0].Op != "str" {
+		xk := c.A[0].Key()
+		if lit, known := s.strEq[xk]; known {
+			if (lit == c.A[1].S) != pol {
+				return false
+			}
+			return true
+		}
+		if pol {
+			if s.strEq == nil {
+				s.strEq = map[string]string{}
+			}
+			s.strEq[xk] = c.A[1].S
+		}
+	}
 	if c.Op == "in" && len(c.A) >= 1 {
 		x := c.A[0]
 		if dom, ok := e.W.enumDomain(x.Ty); ok {
@@ -1379,8 +1521,8 @@ func freshBase(b *T) (*T, bool) {
 	for b.Op == "slice" && len(b.A) == 4 && (b.A[1].Op == "none" || b.A[1].IsConstVal(0)) {
 		b = b.A[0]
 	}
-	if b.Op == "new" || b.Op == "alloc" {
-		return b, true
+	if b.Op == "new" || b.Op == "alloc" || b.Op == "global" {
+		return b, true // storage with one name: the function's own allocation, or a package-level variable
 	}
 	return b, false
 }
@@ -1718,4 +1860,75 @@ func (e *Explorer) modelContains(s *pstate, ev *Event, v ssa.Value) bool {
 	r := &T{Op: "in", A: append([]*T{ev.Args[1]}, elems...), Ty: v.Type()}
 	ev.Res, s.regs[v] = r, r
 	return true
+}
+
+// concrete: a term of an enumerated type that the path has narrowed to one
+// value is that value.
+func (e *Explorer) concrete(s *pstate, t *T) *T {
+	x := stripConv(t)
+	if x.IsConst() {
+		return t
+	}
+	if set, ok := s.sets[x.Key()]; ok && set != 0 && set&(set-1) == 0 {
+		v := int64(0)
+		for set > 1 {
+			set >>= 1
+			v++
+		}
+		return tconst(v, t.Ty)
+	}
+	return t
+}
+
+// forkOnTableIndex: the instruction at b.Instrs[ii] indexes a table the
+// package initialiser built (nothing else writes it) with a value of an
+// enumerated type that is not yet narrowed to one constant.  The path is
+// split, one continuation per possible value, so that the table entry is a
+// constant on each.  Returns true when it took over the exploration.
+func (e *Explorer) forkOnTableIndex(b *ssa.BasicBlock, pred, ii int, s *pstate, start int, base *T, index ssa.Value) bool {
+	if e.probing || len(s.stack) > 8 {
+		return false
+	}
+	root := base
+	if fb, ok := freshBase(base); ok {
+		root = fb
+	}
+	for root.Op == "sel" || root.Op == "elem" {
+		root = root.A[0]
+	}
+	if !(root.Op == "global" && e.W.readOnlyGlobal(root.S)) && !e.W.initialised(root) {
+		return false
+	}
+	idx := stripConv(e.val(s, index))
+	if idx.IsConst() {
+		return false
+	}
+	dom, ok := e.W.enumDomain(idx.Ty)
+	if !ok {
+		return false
+	}
+	cur, have := s.sets[idx.Key()]
+	if !have {
+		cur = dom
+	}
+	if cur&(cur-1) == 0 {
+		return false // already one value
+	}
+	n := 0
+	for v := int64(0); v < 64; v++ {
+		if cur&(1<<uint(v)) == 0 {
+			continue
+		}
+		n++
+		ns := s.clone()
+		ns.curBlk = s.rootBlk(b)
+		if !e.assume(ns, &T{Op: "eq", A: []*T{idx, tconst(v, idx.Ty)}}, true, b.Instrs[ii].Pos()) {
+			continue
+		}
+		e.runFrom(b, pred, ii, ns, start)
+		if e.Err != nil {
+			return true
+		}
+	}
+	return n > 0
 }
